@@ -450,6 +450,8 @@ func (ex *Exec) recvEvent(st *State, c ChanV, v Value, pc *Term, et types.Type) 
 	n := st.get("ghost|recv.n", SBV(64))
 	a := st.get("ghost|recv.ch", SArr(SBV(64), SRef))
 	st.set("ghost|recv.ch", Store(a, n, c.Ref))
+	ty := st.get("ghost|recv.ty", SArr(SBV(64), SBV(16)))
+	st.set("ghost|recv.ty", Store(ty, n, ex.typeID(et)))
 	if p, ok := v.(PtrV); ok && p.Kind == PHeap {
 		va := st.get("ghost|recv.val", SArr(SBV(64), SRef))
 		st.set("ghost|recv.val", Store(va, n, p.Ref))
@@ -481,6 +483,8 @@ func (fr *Frame) chanSend(ch Value, v Value, chExpr ssa.Value, pc *Term, st *Sta
 	n := st.get("ghost|send.n", SBV(64))
 	a := st.get("ghost|send.ch", SArr(SBV(64), SRef))
 	st.set("ghost|send.ch", Store(a, n, c.Ref))
+	ty := st.get("ghost|send.ty", SArr(SBV(64), SBV(16)))
+	st.set("ghost|send.ty", Store(ty, n, ex.typeID(chanElem(chExpr.Type()))))
 	if p, ok := v.(PtrV); ok && p.Kind == PHeap {
 		va := st.get("ghost|send.val", SArr(SBV(64), SRef))
 		st.set("ghost|send.val", Store(va, n, p.Ref))
